@@ -108,6 +108,11 @@ def main():
                 j = json.load(open(path))
                 kinds.append("%s:%s" % (j["kind"], j["key"]))
             alarm = rc != 0
+            ev = json.load(open(os.path.join(ROOT, "evidence", "C09.json")))
+            brk = [o["name"] for o in ev["coverage"]["obligation_list"] if not o["discharged"]]
+            short = sorted(set("layout_ok" if "gen_layout_ok" in n else "tie(cases)" if n.startswith("tie: Lemma tie") else "tie(layout)" if n.startswith("tie:") else
+                               "theorems" if n.startswith("Theorem") else n[:30] for n in brk))
+            kinds.append("obligations broken: " + (", ".join(short) if short else "none"))
             verdict = ("caught" if alarm else "MISSED") if expect else ("FALSE ALARM" if alarm else "quiet (as it must be)")
             rows.append((name, verdict, "; ".join(kinds) + (" | " + base if base else ""), desc))
             if viol:
